@@ -715,6 +715,50 @@ theorem v2_unlimited_is_max (v : Int) :
   · subst h; simp
   · simp [h]
 
+/-! ### 9. what is finally written: rule callbacks, and pod vs container on the files -/
+
+/-- a rule callback moves only the cfs-quota file, and to the value the hook path would write. -/
+theorem cb_only_quota (v2 : Bool) (init : Files) (o : Option Out) :
+    (applyQuota v2 init o).shares = init.shares ∧ (applyQuota v2 init o).mem = init.mem ∧
+    (∀ out, o = some out → (applyQuota v2 init o).quota = (applyOut v2 init o).quota) := by
+  cases o <;> simp [applyQuota, applyOut]
+
+/-- "no looser than" on file contents of cpu.cfs_quota_us|cpu.max and memory.limit_in_bytes|memory.max:
+    `max` and `-1` are top. -/
+def FLe : FVal → FVal → Prop
+  | _, .max => True
+  | .num x, .num y => y = -1 ∨ (x ≠ -1 ∧ x ≤ y)
+  | _, _ => False
+
+theorem writeLimit_le (v2 : Bool) (a b : Int) (h : QLe a b) : FLe (writeLimit v2 a) (writeLimit v2 b) := by
+  unfold writeLimit
+  cases v2
+  · simpa [FLe, QLe] using h
+  · by_cases hb : b = -1
+    · subst hb; simp [FLe]
+    · rcases h with h | ⟨h1, h2⟩
+      · exact absurd h hb
+      · simp [hb, h1, FLe, h2]
+
+/-- what is WRITTEN (v1 or v2 format) for the pod is never tighter than what is written for one of the containers
+    of the decoded request: cpu.shares / cpu.weight, cfs quota, memory limit. -/
+theorem written_pod_ge_container (cfg : Cfg) (hs : ScaleOK cfg.scale) (v2 : Bool) (m : List (Nat × Ctr))
+    (i : Nat) (c : Ctr) (hc : (i, c) ∈ m) :
+    let cs := m.map (·.2)
+    (match writeShares v2 (ctrShares stdConsts c), writeShares v2 (podShares stdConsts cs) with
+      | .num x, .num y => x ≤ y
+      | _, _ => False) ∧
+    FLe (writeLimit v2 (ctrQuota stdConsts cfg c)) (writeLimit v2 (podQuota stdConsts cfg cs)) ∧
+    FLe (writeLimit v2 (ctrMem c)) (writeLimit v2 (podMem cs)) := by
+  intro cs
+  have hmem : c ∈ cs := List.mem_map.mpr ⟨(i, c), hc, rfl⟩
+  refine ⟨?_, writeLimit_le v2 _ _ (pod_quota_ge_container cfg hs cs c hmem),
+    writeLimit_le v2 _ _ (pod_mem_ge_container cs c hmem)⟩
+  unfold writeShares
+  cases v2
+  · simpa using pod_shares_ge_container cs c hmem
+  · simpa using pod_weight_ge_container cs c hmem
+
 /-! ### non-vacuity -/
 
 example : ChangedOK (fun a b => decide (a ≠ b)) := ⟨fun a b h => by simp; omega, fun a => by simp⟩
